@@ -139,6 +139,18 @@ LfpFrom(fs, op, L) ==
     IN IF N = L THEN L ELSE LfpFrom(fs, op, N)
 LFP(fs, op) == LfpFrom(fs, op, NonOptional(fs))
 
+(* C03, second sentence: the decision does not depend on where a file sits on the command line
+   relative to the files that reference it - LFP is invariant under every permutation of the
+   command line that keeps the relative order of the DEFINITIONS of each name. *)
+KeepsDefinitionOrder(fs, p) ==
+    \A n \in NameSet : \A i, j \in FIdx(fs) :
+        (i < j /\ IsDefKind(D(fs, p[i], n)) /\ IsDefKind(D(fs, p[j], n))) => p[i] < p[j]
+PositionIndependent(fs, op) ==
+    \A p \in Permutations(FIdx(fs)) :
+        KeepsDefinitionOrder(fs, p) =>
+            LET fs2 == [i \in FIdx(fs) |-> fs[p[i]]]
+            IN LFP(fs2, op) = {i \in FIdx(fs) : p[i] \in LFP(fs, op)}
+
 -----------------------------------------------------------------------------
 (* Scan: the sequential reading (what ld.lld does, and GNU ld when archives follow their users):
    files are visited in order; an optional file registers its definitions as LAZY for names that
